@@ -1,4 +1,10 @@
+//! h_lsp — language-server properties. One module per property.
+mod c43;
+
 fn main() {
     let args = mc::parse_args();
-    mc::machinery_error(&format!("{} is not built yet", args.prop));
+    match args.prop.as_str() {
+        "C43" => c43::run(args),
+        other => mc::machinery_error(&format!("h_lsp serves C43, not {other}")),
+    }
 }
